@@ -49,6 +49,8 @@ endif()
 
 # one executable per property: harness/targets/cNN_*.cpp -> vh_cNN
 file(GLOB VH_TARGET_SRCS CONFIGURE_DEPENDS ${VH_DIR}/targets/c[0-9][0-9]*.cpp)
+# re-run cmake when a cNN.upstream list appears or disappears
+file(GLOB VH_UPSTREAM_FILES CONFIGURE_DEPENDS ${VH_DIR}/targets/*.upstream)
 set(VH_PROPS)
 foreach(src IN LISTS VH_TARGET_SRCS)
   get_filename_component(base ${src} NAME_WE)
